@@ -222,6 +222,7 @@ func observe(c ctx, k *hdkeychain.ExtendedKey, n *hdref.Node, version []byte, wh
 type walkOpt struct {
 	childEvery int  // emit a Child case for every n-th step (0: none)
 	nodeEvery  int  // emit Str / Addr / Neuter / PubBytes cases for every n-th node (0: none)
+	nodeAt     int  // >0: emit the node cases only for step nodeAt-1
 	pathCase   bool // emit a Path case for the whole walk
 	shaOracle  bool // pass double-SHA256 through the oracle instead of computing it in Coq
 }
@@ -371,7 +372,7 @@ func walk(seed []byte, net int, path []uint32, opt walkOpt) {
 				}
 			}
 		}
-		if opt.nodeEvery > 0 && step%opt.nodeEvery == 0 {
+		if (opt.nodeEvery > 0 && step%opt.nodeEvery == 0) || opt.nodeAt == step+1 {
 			nodeCases(ch, opt.shaOracle || step%2 == 1, pathStr(c.path))
 			nodeCases(nc, true, pathStr(c.path)+" neutered")
 		}
@@ -436,7 +437,7 @@ func nodeCases(k *hdkeychain.ExtendedKey, shaOracle bool, what string) {
 	if err != nil {
 		cases.Add(fmt.Sprintf("ECPriv %s (Err %d)", coqKey(f), errClass(err)), map[string]interface{}{"op": "ECPrivKey", "node": what})
 	} else {
-		cases.Add(fmt.Sprintf("ECPriv %s (Ok %s)", coqKey(f), sk.D.String()), map[string]interface{}{"op": "ECPrivKey", "node": what})
+		cases.Add(fmt.Sprintf("ECPriv %s (Ok %s)", coqKey(f), hdref.Hex(sk.D)), map[string]interface{}{"op": "ECPrivKey", "node": what})
 	}
 	o4 := hdref.NewOracle()
 	o4.Parse(pubOracle(o4, f))
@@ -444,7 +445,7 @@ func nodeCases(k *hdkeychain.ExtendedKey, shaOracle bool, what string) {
 	if err != nil {
 		cases.Add(fmt.Sprintf("ECPub %s %s (Err 4)", o4.Coq(), coqKey(f)), map[string]interface{}{"op": "ECPubKey", "node": what})
 	} else {
-		cases.Add(fmt.Sprintf("ECPub %s %s (Ok (%s, %s))", o4.Coq(), coqKey(f), pk.X.String(), pk.Y.String()), map[string]interface{}{"op": "ECPubKey", "node": what})
+		cases.Add(fmt.Sprintf("ECPub %s %s (Ok (%s, %s))", o4.Coq(), coqKey(f), hdref.Hex(pk.X), hdref.Hex(pk.Y)), map[string]interface{}{"op": "ECPubKey", "node": what})
 	}
 }
 
@@ -588,7 +589,7 @@ func vectors() {
 		if k.String() != v.priv || nk == nil || nk.String() != v.pub {
 			rep.Violate("C04:vectors", "BIP32 test vector not reproduced", c.replay(map[string]interface{}{"impl_priv": k.String(), "want_priv": v.priv, "want_pub": v.pub}))
 		}
-		walk(seed, 0, v.path, walkOpt{childEvery: 1, nodeEvery: 2, pathCase: true, shaOracle: vi%3 != 0})
+		walk(seed, 0, v.path, walkOpt{childEvery: 1, nodeEvery: 3, pathCase: true, shaOracle: vi%3 != 0})
 	}
 }
 
@@ -703,7 +704,7 @@ func main() {
 	}
 
 	// the curve order the model uses, and the local RIPEMD-160 against the library's HASH160
-	cases.Add("CurveN "+bchec.S256().N.String(), map[string]string{"op": "bchec.S256().N"})
+	cases.Add("CurveN "+hdref.Hex(bchec.S256().N), map[string]string{"op": "bchec.S256().N"})
 	r := rng.Fork("deps")
 	for _, n := range []int{0, 1, 33, 55, 56, 64, 65, 120} {
 		m := r.Bytes(n)
@@ -751,7 +752,7 @@ func main() {
 			path[j] = randIndex(r)
 		}
 		seedLen := vh.Pick(r, []int{16, 32, 32, 64, 16 + r.Intn(49)})
-		walk(r.Bytes(seedLen), p%len(nets), path, opt(3, 4, true, p%4 != 0))
+		walk(r.Bytes(seedLen), p%len(nets), path, opt(3, 7, true, p%4 != 0))
 	}
 
 	// --- depth: a path of 255 steps, then one more (ErrDeriveBeyondMaxDepth)
@@ -765,7 +766,7 @@ func main() {
 		for j := range path {
 			path[j] = randIndex(r)
 		}
-		walk(r.Bytes(32), d%len(nets), path[:255], opt(40, 50, true, true)) // exactly depth 255: succeeds
+		walk(r.Bytes(32), d%len(nets), path[:255], opt(40, 100, true, true)) // exactly depth 255: succeeds
 		walk(r.Bytes(32), (d+1)%len(nets), path, opt(0, 0, false, true))   // step 256 must be refused
 	}
 	// depth 255 reached directly (hook sets the depth field): both private and public
@@ -821,9 +822,13 @@ func main() {
 		} else {
 			found2++
 		}
-		for _, g := range []uint32{H + uint32(r.Intn(1000)), uint32(r.Intn(1000))} {
+		for gi, g := range []uint32{H + uint32(r.Intn(1000)), uint32(r.Intn(1000))} {
 			path := append(append([]uint32{}, prefix...), i, g)
-			walk(seed, t%len(nets), path, opt(1, 1, true, t%3 != 0))
+			o := opt(1, 0, true, t%3 != 0)
+			if corr && gi == 0 && t%2 == 0 {
+				o.nodeAt = 2 // the node whose scalar has the leading zero byte(s)
+			}
+			walk(seed, t%len(nets), path, o)
 		}
 	}
 	rep.Extra["targeted_leading_zero_children_found"] = map[string]int{"one_zero_byte": found1, "two_zero_bytes": found2, "scans": tries}
